@@ -38,6 +38,8 @@ fn get_server_values_impl(socket: &mut UdpSocket) -> GDResult<HashMap<String, St
     let mut received_query_id: Option<usize> = None;
     let mut parts: Vec<usize> = Vec::new();
     let mut is_finished = false;
+    // number of parts the response has, known once the part carrying "final" has arrived
+    let mut expected_parts: Option<usize> = None;
 
     let mut server_values = HashMap::new();
 
@@ -63,7 +65,7 @@ fn get_server_values_impl(socket: &mut UdpSocket) -> GDResult<HashMap<String, St
             server_values.insert(key, value);
         }
 
-        is_finished = server_values.remove("final").is_some();
+        let has_final = server_values.remove("final").is_some();
 
         let query_data = server_values.get("queryid");
 
@@ -93,6 +95,13 @@ fn get_server_values_impl(socket: &mut UdpSocket) -> GDResult<HashMap<String, St
             true => Err(GDErrorKind::PacketBad)?,
             false => parts.push(part),
         }
+
+        // parts may arrive in any order: the one with "final" is the last one of the
+        // response (parts are numbered from 1), not necessarily the last one received
+        if has_final {
+            expected_parts = Some(if query_id.is_some() && part > 0 { part } else { parts.len() });
+        }
+        is_finished = expected_parts.is_some_and(|n| parts.len() >= n);
     }
 
     Ok(server_values)
